@@ -10,12 +10,17 @@ package main
 
 import (
 	"bytes"
+	"sync/atomic"
+	"syscall"
+
 	"encoding/hex"
 	"fmt"
+	"github.com/glowlabs-org/gca-backend/server"
 	"io"
 	"net/http"
 	"os"
 	"path/filepath"
+	"runtime"
 	"strings"
 	"sync"
 	"time"
@@ -25,6 +30,7 @@ import (
 )
 
 type victim struct {
+	curOp   atomic.Int64 // op being executed by the sequential part
 	sc      *Script
 	e       *drv.Srv
 	oplog   *os.File
@@ -154,7 +160,7 @@ func (v *victim) do(op Op) string {
 				}
 				ch <- n
 			default:
-				time.Sleep(100 * time.Microsecond)
+				time.Sleep(20 * time.Microsecond)
 			}
 		}
 		v.pending = ch
@@ -176,6 +182,9 @@ func (v *victim) exec(op Op) {
 		v.waitTracer(op.I)
 	}
 	v.logf("BEGIN %d %s", op.I, op.K)
+	if op.Round < 0 {
+		v.curOp.Store(int64(op.I))
+	}
 	res := v.do(op)
 	v.logf("END %d %s", op.I, res)
 	if strings.HasPrefix(res, "err=") {
@@ -207,6 +216,35 @@ func victimMain(dir, scriptPath string) {
 	drv.SetClock(0)
 	drv.GateRotation(true)
 	drv.GateImpact(len(sc.Rounds) == 0) // the impact job runs freely in concurrent workloads
+	if sc.KillInOp >= 0 {
+		// Kill aimed inside the write(2) of a statistics record: when the aimed
+		// rotation begins, a watcher thread polls the size of the history file and
+		// sends SIGKILL to this process KillDelayUs after the file started to grow,
+		// i.e. while the kernel is still copying the record's pages.
+		stats := filepath.Join(dir, "allDeviceStats.dat")
+		server.VerifSetHook("migrate.beforeLock", func(*server.GCAServer) {
+			if v.curOp.Load() != int64(sc.KillInOp) {
+				return
+			}
+			var size0 int64
+			if fi, err := os.Stat(stats); err == nil {
+				size0 = fi.Size()
+			}
+			go func() {
+				runtime.LockOSThread()
+				for {
+					if fi, err := os.Stat(stats); err == nil && fi.Size() > size0 {
+						break
+					}
+				}
+				t0 := time.Now()
+				d := time.Duration(sc.KillDelayUs) * time.Microsecond
+				for time.Since(t0) < d {
+				}
+				syscall.Kill(os.Getpid(), syscall.SIGKILL)
+			}()
+		})
+	}
 	for _, op := range sc.Ops {
 		v.exec(op)
 	}
